@@ -62,6 +62,7 @@ class Ctx(object):
         it.mode.by_contract = set(by_contract)
         if hooks:
             it.hooks.update(hooks)
+        it.hooks['pid'] = self.pid
         it.types = TYPES
         it.load_module('pynetdicom2')
         bind_records(it)
